@@ -266,8 +266,6 @@ Unit(
 # --------------------------------------------------------------------------
 # generators: dict lower-case language -> dict lower-case target -> GeneratorDesc
 # --------------------------------------------------------------------------
-Schema("GeneratorDesc", fields={"language": "str", "target": "str", "description": "any", "generator": "any",
-                                "custom_args": "any", "project_name": "any", "project_version": "any"})
 GG = dict(G)
 GG["global:generators"] = "dict[dict[obj:GeneratorDesc]]|none"
 GLOAD = "call:registration.generator_descriptions"
